@@ -80,6 +80,23 @@ def run_history(job):
         shutil.rmtree(root, ignore_errors=True)
 
 
+def run_random_history(job):
+    """fresh forked process: random scripts loaded one after the other; each outcome must be the oracle's (pristine) outcome"""
+    import warnings
+    from .. import realrun, values
+    warnings.simplefilter("ignore")
+    for k, c in enumerate(job["cases"]):
+        real = realrun.loads(c["text"])
+        values.EXTRA_ATOMS = dict(enumerate(c["atoms"]))
+        try:
+            why = progcmp.cmp_outcome(c["out"], real, sections=("meta", "ops", "modes", "vars", "params"), strict_cls=False)
+        finally:
+            values.EXTRA_ATOMS = {}
+        if why:
+            return {"bad": "load %d of a history of random scripts: %s" % (k + 1, why), "texts": [x["text"] for x in job["cases"]]}
+    return {"ok": True}
+
+
 def fingerprint(desc):
     return None
 
@@ -114,11 +131,33 @@ def run(rep, tier, seed):
             nbad += 1
             rep.violation(rr["bad"] + " | history of scripts " + str([x["sid"] for x in job["hist"]]) + "\n" + "\n---\n".join(rr["texts"]),
                           {"job": job, "texts": rr["texts"], "reason": rr["bad"], "fingerprint": fingerprint(rr["bad"])})
+    # histories of random scripts (TLC's Trace_Load is the oracle for each script alone)
+    from .. import randcases
+    import random
+    npool = 300 if tier == "quick" else 1500
+    pool = randcases.build(seed + 23, npool)
+    randcases.judge(rep, pool, "Trace_Load (pristine outcome of %d random scripts used in histories)" % npool)
+    pool = [dict(text=c["text"], out=c["out"], atoms=c["atoms"]) for c in pool if c["out"]["k"] != "unspec"]
+    failing = [c for c in pool if c["out"]["k"] == "raise"]
+    rng = random.Random(seed)
+    rjobs = []
+    for _ in range(200 if tier == "quick" else 2000):
+        h = [rng.choice(failing) if (failing and rng.random() < 0.4) else rng.choice(pool) for _ in range(3)]
+        rjobs.append({"cases": h})
+    with ctx.Pool(16, maxtasksperchild=1) as pool2:
+        rres = pool2.map(run_random_history, rjobs, chunksize=1)
+    for job, rr in zip(rjobs, rres):
+        if "bad" in rr:
+            rep.violation(rr["bad"] + "\n" + "\n---\n".join(rr["texts"]), {"rjob": job, "reason": rr["bad"], "fingerprint": None})
+    rep.cov["random_histories"] = len(rjobs)
+    rep.cov["traces_validated_against_impl"] += len(rjobs)
+    rep.cov["evaluations"] += len(rjobs)
+    rep.cov["distinct_nontrivial"] += len(rjobs)
     rep.sample({"history": [scripts[x["sid"] - 1].get("name", "syntax-error") for x in jobs[len(jobs) // 2]["hist"]],
                 "spec_outcomes": [x["out"]["k"] for x in jobs[len(jobs) // 2]["hist"]], "texts": res[len(jobs) // 2]["texts"]})
-    rep.cov["traces_validated_against_impl"] = len(jobs)
-    rep.cov["evaluations"] = len(jobs)
-    rep.cov["distinct_nontrivial"] = len(jobs)
+    rep.cov["traces_validated_against_impl"] += len(jobs)
+    rep.cov["evaluations"] += len(jobs)
+    rep.cov["distinct_nontrivial"] += len(jobs)
     rep.cov["loads_executed"] = len(jobs) * K
     rep.cov["rule"] = ("every sequence of %d loads over 15 scripts (valid, template, tdm with p-array, failing at the syntax stage, at an undefined name, "
                        "at a type error, inside a loop, inside an include, in the metadata, after a parameter was seen; scripts whose target/type options "
@@ -128,6 +167,10 @@ def run(rep, tier, seed):
 
 def replay(path):
     d = json.load(open(path))
+    if "rjob" in d:
+        rr = run_random_history(d["rjob"])
+        print(rr.get("bad", "agrees now"))
+        return 1 if "bad" in rr else 0
     rr = run_history(d["job"])
     print("\n---\n".join(rr["texts"]))
     print(rr.get("bad", "agrees now"))
